@@ -34,18 +34,6 @@ Not applicable: that the position lies in the first malformed assignment (nom's 
         None => ctx.fail_closed("C17.same", "anchor not found: Display for LexerError"),
         Some(f) => {
             ctx.func(&f.key);
-            let args = format_args_of(&f.block);
-            let pos: Vec<&(String, usize)> = args.iter().filter(|(a, _)| a.contains(".line") || a.contains(".column")).collect();
-            ctx.floor("C17.same/display-position-args", pos.len(), 4);
-            for (a, line) in pos {
-                ctx.oblige("C17.same", &format!("display:{}", a), true);
-                let ok = a == "report_data.line" || a == "report_data.column";
-                if !ok {
-                    let which = if a.contains(".line") { "line" } else { "column" };
-                    ctx.violate("C17.same", &format!("display-{}", which), &f.file, *line,
-                        &format!("Display prints `{}`; the structured report and contextualize() use report_data.{} as is — the three renderings must show the same {}", a, which, which));
-                }
-            }
             // Display evaluated: the text carries the report's line and column, and the file when there is one
             {
                 use crate::eval::{Env, Evaluator, Val};
